@@ -518,6 +518,8 @@ func convPath(s string) (string, error) {
 	if err != nil {
 		return "", err
 	}
+	// A trailing slash on the generic endpoint must not double the separator.
+	u.Path = strings.TrimRight(u.Path, "/")
 	return u.Path + "/v1/logs", nil
 }
 
